@@ -86,6 +86,24 @@ def cases(tier, rng):
                         c["expr"] = implexpr.self_expr(expr, c["fields"])
                         c["params"] = ["self"]
                     yield "big-values", c
+    # many keyword arguments swallowed by **kw: every one is listed, whatever the order they are given in
+    for nkw in (3, 49, 50, 51, 64, 130):
+        extra = dict(("k%03d" % i, i) for i in range(nkw))
+        for expr in ("x > 100", "len(_KWARGS) < 0 or x > 100"):
+            cparams = ["x"] if "_KWARGS" not in expr else ["x", "_KWARGS"]
+            names = ["x"] + sorted(extra)
+            vs = [{}]
+            for _ in range(3):
+                order = list(names)
+                rng.shuffle(order)
+                vs.append({"order": order})
+            vs.append({"order": list(reversed(names))})
+            yield "many-kwargs", {"dom": "expr", "expr": expr, "env": {"x": 1}, "params": cparams, "fparams": ["x", "**kw"],
+                                  "extra_kwargs": extra, "layout": "oneline", "variants": vs}
+    # the closure variable is re-bound and bound back: the same violation gives the same message again
+    for expr in ("x > cl + 100", "cl < 0 or x > 100", "[cl, x] == []"):
+        yield "closure-rebound", {"dom": "expr", "expr": expr, "env": {"x": 1}, "params": ["x"], "layout": "oneline",
+                                  "rebind_cl": [9, -3, 5]}
     for params, expr, env in HIDDEN:
         for kind in ("require", "ensure"):
             yield "unrepresentable-arguments", {"dom": "expr", "expr": expr.replace("implexpr_tick", "tick"), "env": env, "params": list(params),
@@ -118,6 +136,8 @@ def cases(tier, rng):
                 continue      # iterating a set: the first falsifying element itself depends on the hash seed
             sub.append({"dom": "expr", "expr": expr, "env": env, "params": list(params), "layout": "oneline"})
             sub.append({"dom": "expr", "expr": expr, "env": env, "params": list(params), "layout": "oneline", "a_repr": SMALL})
+        sub.append({"dom": "expr", "expr": "x > 100", "env": {"x": 1}, "params": ["x"], "fparams": ["x", "**kw"], "layout": "oneline",
+                    "extra_kwargs": dict(("k%03d" % i, i) for i in range(64))})
         while len(sub) < 70:
             c = exprprop.make_case(rng, depth=2, features=exprprop.ALL_FEATURES)
             if c:
@@ -150,4 +170,9 @@ def run_impl(case):
 def spec(case, mos, io):
     if case["dom"] == "hashseed":
         return exprprop.check_hashseed(case, io)
-    return exprprop.check_determinism(case, io, mos)
+    fails = exprprop.check_determinism(case, io, mos)
+    rb = io.get("rebinds") or []
+    if rb and rb[-1]["cl"] == 5 and io.get("message") is not None and rb[-1].get("message") != io["message"]:
+        fails.append("the same violation after the closure variable was re-bound and bound back gives a different message:\n%s\n--- vs ---\n%s"
+                     % (rb[-1].get("message"), io["message"]))
+    return fails
